@@ -31,6 +31,10 @@ pub struct Route {
     /// opens scheduling windows inside the router's event loop
     #[serde(default)]
     pub cb_yield: bool,
+    /// forwarding route whose consumer has gone away: the crossbeam receiver is dropped right after
+    /// registration while messages keep coming; the other routes must not notice
+    #[serde(default)]
+    pub abandon: bool,
 }
 
 #[derive(Clone, Debug, Serialize, Deserialize)]
@@ -112,7 +116,10 @@ fn body(p: &P) -> Result<(), String> {
                 },
                 Kind::Crossbeam => {
                     e1::inproc_point();
-                    xbs.push((i, proxy.route_ipc_receiver_to_new_crossbeam_receiver(rx)));
+                    let crx = proxy.route_ipc_receiver_to_new_crossbeam_receiver(rx);
+                    if !r.abandon {
+                        xbs.push((i, crx));
+                    }
                 },
             }
             feed.push((i, r.clone(), tx));
@@ -154,6 +161,9 @@ fn body(p: &P) -> Result<(), String> {
     let lg = log.lock().unwrap().clone();
     obs(format!("log={:?} fwd={:?}", lg, forwarded));
     for (i, r) in p.routes.iter().enumerate() {
+        if r.abandon {
+            continue;
+        }
         let want: Vec<u32> = (0..r.pre + r.post).map(|s| i as u32 * 100 + s).collect();
         let got: Vec<u32> = match r.kind {
             Kind::Callback => lg.iter().filter(|(ri, _)| *ri == i).map(|(_, v)| *v).collect(),
@@ -311,7 +321,7 @@ pub fn scenarios(tier: Tier) -> Vec<Scenario> {
         let mut cfg = sched_cfg();
         cfg.post_points = true;
         cfg.strict_deviations = true;
-        let p = P { routes: vec![Route { kind: Kind::Callback, pre: 40, post: 10, by: 0, big: false, cb_yield: false }, Route { kind: Kind::Crossbeam, pre: 0, post: 50, by: 0, big: false, cb_yield: false }] };
+        let p = P { routes: vec![Route { kind: Kind::Callback, pre: 40, post: 10, by: 0, big: false, cb_yield: false, abandon: false }, Route { kind: Kind::Crossbeam, pre: 0, post: 50, by: 0, big: false, cb_yield: false, abandon: false }] };
         v.push(Scenario::new("backlog 40+10 / 0+50 (every non-default choice counts)", cfg.clone(), if tier.is_quick() { 1 } else { 2 }, move || body(&p)));
         v.push(Scenario::new("six registering tasks (every non-default choice counts)", cfg.clone(), if tier.is_quick() { 1 } else { 2 }, move || many_tasks_body(6)));
         v.push(Scenario::new("backlog on the newer route first, then on the older one (12 + 12)", cfg.clone(), if tier.is_quick() { 1 } else { 2 }, move || cross_backlog_body(12)));
@@ -319,14 +329,18 @@ pub fn scenarios(tier: Tier) -> Vec<Scenario> {
     }
     let mut add = |routes: Vec<Route>, bound: u32| {
         let p = P { routes };
-        let name = format!("{:?}", p.routes.iter().map(|r| format!("{:?}/pre{}/post{}/by{}{}{}", r.kind, r.pre, r.post, r.by, if r.big { "/big" } else { "" }, if r.cb_yield { "/cb-yields" } else { "" })).collect::<Vec<_>>());
+        let name = format!("{:?}", p.routes.iter().map(|r| format!("{:?}/pre{}/post{}/by{}{}{}{}", r.kind, r.pre, r.post, r.by, if r.big { "/big" } else { "" }, if r.cb_yield { "/cb-yields" } else { "" }, if r.abandon { "/abandoned" } else { "" })).collect::<Vec<_>>());
         let mut cfg = sched_cfg();
         cfg.post_points = true;
         v.push(Scenario::new(name, cfg, bound, move || body(&p)));
     };
     use Kind::*;
-    let r = |kind, pre, post, by, big| Route { kind, pre, post, by, big, cb_yield: false };
-    let ry = |kind, pre, post, by| Route { kind, pre, post, by, big: false, cb_yield: true };
+    let r = |kind, pre, post, by, big| Route { kind, pre, post, by, big, cb_yield: false, abandon: false };
+    let rab = |pre, post, by| Route { kind: Crossbeam, pre, post, by, big: false, cb_yield: false, abandon: true };
+    let ry = |kind, pre, post, by| Route { kind, pre, post, by, big: false, cb_yield: true, abandon: false };
+    // a forwarding route whose consumer is gone, next to live routes
+    add(vec![rab(1, 1, 0), r(Callback, 1, 1, 0, false)], 2);
+    add(vec![rab(0, 2, 1), r(Crossbeam, 1, 1, 0, false)], 2);
     if tier.is_quick() {
         add(vec![r(Callback, 1, 1, 0, false)], 2);
         add(vec![r(Crossbeam, 0, 2, 0, false)], 2);
@@ -375,7 +389,7 @@ fn run_all(rep: &mut Report, tier: Tier) {
     rep.set("deviation_bound_max", json!(tot.max_bound));
     rep.set("evaluations", json!(tot.execs));
     rep.set("distinct_nontrivial", json!(tot.with_switch));
-    rep.set("rule", json!("one evaluation = one complete schedule (<= bound deviations) of registering/sending/dropping tasks against the real router thread; routes: callback with drop guard or crossbeam forwarding, 0-2 messages queued before registration, 0-2 after, registered from the main task or a helper, callbacks that themselves perform a visible operation; plus quiet bursts of 9/12/33 registrations, a 40+10 / 0+50 backlog, a backlog on the newer route first then the older one, and six registering tasks (wide scenarios count every non-default choice as a deviation); schedules are distinct by construction (the depth-first search never repeats a choice sequence) and a schedule counts as non-trivial when it contains at least one context switch; enumerated cases are distinct by construction"));
+    rep.set("rule", json!("one evaluation = one complete schedule (<= bound deviations) of registering/sending/dropping tasks against the real router thread; routes: callback with drop guard or crossbeam forwarding, 0-2 messages queued before registration, 0-2 after, registered from the main task or a helper, callbacks that themselves perform a visible operation, a forwarding route whose crossbeam receiver was dropped; plus quiet bursts of 9/12/33 registrations, a 40+10 / 0+50 backlog, a backlog on the newer route first then the older one, and six registering tasks (wide scenarios count every non-default choice as a deviation); schedules are distinct by construction (the depth-first search never repeats a choice sequence) and a schedule counts as non-trivial when it contains at least one context switch; enumerated cases are distinct by construction"));
     rep.assume("router queue operations are paired with a system call inside one critical section, so system-call/futex granularity covers its interleavings");
     rep.assume("the proxy is leaked at the end of each execution (stopping a router is C17)");
 }
